@@ -409,26 +409,17 @@ def _order(repo, col):
     col.check(i_vclamp > max(v_assign), R, fi, "voltage clamp after the voltage step on every solver path",
               "the clamped voltage is what is returned",
               "the voltage clamp is applied before the voltage solve, which overwrites it", node=body[i_vclamp])
-    # every solver path assigns u['v'] inside one if/elif chain
-    chain = body[max(v_assign)]
-    paths = 0
-    missing = []
-    if isinstance(chain, ast.If):
-        node = chain
-        while True:
-            has = any(isinstance(n, ast.Assign) and unparse(n.targets[0]) == "u['v']" for st in node.body for n in ast.walk(st))
-            paths += 1
-            if not has:
-                missing.append(unparse(node.test))
-            if len(node.orelse) == 1 and isinstance(node.orelse[0], ast.If):
-                node = node.orelse[0]
-                continue
-            final_raises = any(isinstance(x, ast.Raise) for x in node.orelse)
-            col.check(final_raises, R, fi, "unknown solver name raises", "an unknown solver is refused",
-                      "an unknown solver name falls through and returns the old voltages", node=node)
-            break
-        col.check(not missing, R, fi, "every solver branch assigns the new voltages", f"{paths} branches",
-                  f"solver branch(es) {missing} do not assign u['v']", node=chain)
+    # every solver name assigns the new voltages, an unknown one raises -- evaluated per name on the conditions each statement runs
+    # under (whatever the arrangement of the if / elif / else is)
+    names_ = sorted(idx.constants_compared_with(fi.node, "solver"), key=str)
+    vst = [s_ for s_ in exo.stores if s_.kind == "sub" and s_.key.op == "const" and s_.key.name == "v" and s_.value is not None and
+           not (s_.value.op == "mcall" and s_.value.name in ("set", "add"))]
+    missing = [nm_ for nm_ in names_ if not any(all(idx.guard_truth(g, "solver", nm_) is not False for g in s_.guards) for s_ in vst)]
+    col.check(bool(names_) and not missing, R, fi, "every solver branch assigns the new voltages", f"{len(names_)} solver names",
+              f"solver name(s) {missing} do not assign u['v']", node=fi.node)
+    final_raises = any(isinstance(n_, ast.Raise) and ex_guards_false_for_all(exo, n_, names_) for n_ in ast.walk(fi.node))
+    col.check(final_raises, R, fi, "unknown solver name raises", "an unknown solver is refused",
+              "an unknown solver name falls through and returns the old voltages", node=fi.node)
     # nothing writes a clamped key after its clamp except the voltage step/clamp
     late = []
     for i in range(i_clamp + 1, len(body)):
@@ -446,6 +437,13 @@ def _order(repo, col):
     col.check(len(rets) == 1 and unparse(rets[0].value) == "u" and body.index(rets[0]) > i_vclamp, R, fi,
               "the clamped dictionary is what is returned", "returns u after the clamps",
               "step does not return the clamped state dictionary", node=rets[0] if rets else fi.node)
+
+
+def ex_guards_false_for_all(ex, node, names):
+    """the statement runs for NONE of the given solver names (some condition on its way is false for each of them), and it is
+    guarded by a condition about the solver at all"""
+    gs = ex.stmt_guards.get(id(node), ())
+    return bool(names) and all(any(idx.guard_truth(g, "solver", nm_) is False for g in gs) for nm_ in names)
 
 
 def input_guards(repo, col, R):
